@@ -180,7 +180,7 @@ class _Walk:
             it = self.ev(s.iter)
             if it == "A":
                 self.force(s.iter, "iteration over an array value", s.iter)
-            self.assign(s.target, "A" if it == "C" else None, None)
+            self.bind_iter(s.target, s.iter, it)
             for _ in range(2):
                 self.block(s.body)
             self.block(s.orelse)
@@ -219,6 +219,18 @@ class _Walk:
         self.numpy_exprs.add(text)
         for k in list(self.env):
             pass
+
+    def bind_iter(self, target, iter_node, it):
+        """Loop variable(s) of `for target in iter_node`.  zip(a, b, c) unpacked into as many names binds each name to an
+        element of ITS iterable: a flag taken from a tuple of booleans is not an array because it is zipped with arrays."""
+        if isinstance(iter_node, ast.Call) and isinstance(iter_node.func, ast.Name) and iter_node.func.id == "zip" and not iter_node.keywords \
+                and isinstance(target, (ast.Tuple, ast.List)) and len(target.elts) == len(iter_node.args) \
+                and not any(isinstance(a, ast.Starred) for a in list(iter_node.args) + list(target.elts)):
+            for t, a in zip(target.elts, iter_node.args):
+                v = self.ev(a)
+                self.assign(t, "A" if v in ("A", "C") else None, None)
+            return
+        self.assign(target, "A" if it == "C" else None, None)
 
     def assign(self, t, v, value_node):
         if isinstance(t, ast.Name):
@@ -323,7 +335,7 @@ class _Walk:
                 it = self.ev(g.iter)
                 if it == "A":
                     self.force(g.iter, "iteration over an array value", g.iter)
-                self.assign(g.target, "A" if it == "C" else None, None)
+                self.bind_iter(g.target, g.iter, it)
                 for c in g.ifs:
                     self.cond(c)
             elts = [e.elt] if not isinstance(e, ast.DictComp) else [e.key, e.value]
